@@ -230,8 +230,9 @@ def build(c):
         comp = None
         for i, eq in enumerate(c['eqs']):
             N, nm = eq['n'], 'y%d' % i
+            shp = tuple(eq.get('shape') or (N,))
             if k == 'eqmulti':
-                kw = dict(use_mult=eq['use_mult'], normalize=eq['normalize'], shape=(N,))
+                kw = dict(use_mult=eq['use_mult'], normalize=eq['normalize'], shape=shp)
                 if eq['use_mult']:
                     kw['mult_val'] = float(fr(eq['mult_val']))
                 if i == 0 and c.get('ctor'):
@@ -240,7 +241,7 @@ def build(c):
                     comp = comp or om.EQConstraintComp()
                     comp.add_eq_output(nm, **kw)
             else:
-                kw = dict(use_mult=eq['use_mult'], normalize=eq['normalize'], val=np.ones(N),
+                kw = dict(use_mult=eq['use_mult'], normalize=eq['normalize'], val=np.ones(shp),
                           rhs_val=float(fr(eq['rhs_val'])))
                 if eq['use_mult']:
                     kw['mult_val'] = float(fr(eq['mult_val']))
@@ -249,9 +250,9 @@ def build(c):
                 else:
                     comp = comp or om.BalanceComp()
                     comp.add_balance(nm, **kw)
-            env += [('in', 'lhs:' + nm, (N,)), ('in', 'rhs:' + nm, (N,))]
+            env += [('in', 'lhs:' + nm, shp), ('in', 'rhs:' + nm, shp)]
             if eq['use_mult']:
-                env.append(('in', 'mult:' + nm, (N,)))
+                env.append(('in', 'mult:' + nm, shp))
             names.append(nm)
         return comp, env, names, k == 'balmulti'
     if k == 'linsys':
